@@ -6,6 +6,9 @@
 #[cfg(any(verif_all, verif_c01))]
 #[path = "/verif/harness/daemon/c01.rs"]
 mod c01;
+#[cfg(any(verif_all, verif_c03))]
+#[path = "/verif/harness/daemon/c03.rs"]
+mod c03;
 #[cfg(any(verif_all, verif_c05))]
 #[path = "/verif/harness/daemon/c05.rs"]
 mod c05;
